@@ -154,7 +154,9 @@ Inductive obs :=
 | OReadE (d : dmsg)                           (* TerminalEventer.OnReadExecutionEvent *)
 | OWrite (w : wire)                           (* conn.Write *)
 | OWriteH (d : dmsg) (data : list N)          (* Handler.OnWriteExecutionEvent, PlatformData = data *)
-| OWriteE (d : dmsg) (data : list N).         (* TerminalEventer.OnWriteExecutionEvent *)
+| OWriteE (d : dmsg) (data : list N)          (* TerminalEventer.OnWriteExecutionEvent *)
+| OAbsorb (d : dmsg).                         (* onActiveRespondEvent returned true: the message went to
+                                                 the SendActiveMessage machinery instead of the reply path *)
 
 (* ------------------------------------------------------------------------------------------ *)
 (* One connection: reader goroutine, two channels, writer goroutine                           *)
@@ -244,11 +246,22 @@ Definition writer_reply (c : conn) : conn * list obs :=
     else quiet c q (c_rq c) (c_h c)
   end.
 
-(* case msg := <-c.msgChan, onActiveRespondEvent returned true (only while a command is outstanding) *)
+(* case msg := <-c.msgChan, `len(record) > 0 && msg.hasComplete()` and onActiveRespondEvent returned
+   true.  That can only happen for the message ids of its switch (terminal RESPONSES); whether it
+   does depends on the outstanding platform commands and on the response's body (the matching rule is
+   C12's subject, Model/Writer.v) - here the writer's choice between this move and MReply is left to
+   the schedule, but the move is enabled only for a complete message with a response id *)
+Definition response_ids : list N := [0x0001; 0x0104; 0x1003; 0x1205; 0x1206; 0x0805].
+Definition is_response (d : dmsg) : bool := existsb (N.eqb (m_id (d_m d))) response_ids.
+
 Definition writer_absorb (c : conn) : conn * list obs :=
   match c_q c with
   | [] => (c, [])
-  | _ :: q => quiet c q (c_rq c) (c_h c)
+  | d :: q =>
+    if is_response d && has_complete d
+    then ({| c_pending := c_pending c; c_hand := c_hand c; c_q := q; c_rq := c_rq c; c_seq := c_seq c;
+             c_h := c_h c |}, [OAbsorb d])
+    else (c, [])
   end.
 
 (* case subPackMsg := <-c.reissuePackChan: subPackReplyEvent (onWriteExecutionEvent filters
@@ -424,3 +437,18 @@ Definition no_absorb (s : list move) : bool :=
 (* the reader has nothing left to report *)
 Definition reader_done (c : conn) : bool :=
   match c_pending c, c_hand c with [], None => true | _, _ => false end.
+
+(* messages the writer handed to the SendActiveMessage machinery *)
+Definition absorbed (t : list obs) : list dmsg :=
+  flat_map (fun o => match o with OAbsorb d => [d] | _ => [] end) t.
+
+(* in the order the writer dealt with them: the answered messages that got their automatic reply or
+   were absorbed *)
+Definition outcomes (t : list obs) : list dmsg :=
+  flat_map (fun o => match o with
+                     | OWrite w => if is_reply_wire w then srcs [w] else []
+                     | OAbsorb d => if answered d then [d] else []
+                     | _ => []
+                     end) t.
+
+Definition not_1003 (d : dmsg) : Prop := m_id (d_m d) <> 0x1003.
